@@ -209,6 +209,18 @@ def stage(tier, seed, rng, stats, out):
         if not r.ok:
             raise core.MachineryError("MC_Collab: " + "; ".join(r.errors[:3]) + r.stdout[-2500:])
         stats.add_tlc(r, f"M MC_Collab[{bname} log<={max_log} unconf<={max_unconf} toks<={max_toks}{' rich' if rich else ''}]")
+    # ---- M, liveness: total edits bounded by the log, weak fairness on send / receive: every behaviour ends
+    # quiescent (all clients up to date, nothing unconfirmed); the safety invariants are checked again here,
+    # with three clients
+    live = [("ab", 2, 2, 1, 6, True), ("ab", 3, 3, 1, 5, False)] if not thorough else \
+           [("ab", 2, 3, 2, 6, True), ("ab", 3, 3, 1, 5, False), ("ab", 3, 3, 2, 5, False)]
+    for bname, ncl, max_log, max_unconf, max_toks, rich in live:
+        path = tlc.write_input(dict(common, nclients=ncl, base=BASES[bname], maxLog=max_log, maxUnconf=max_unconf, maxToks=max_toks,
+                                    rich=rich, live=True), "mccollab")
+        r = tlc.run_tlc("MC_Collab", "MC_Collab_Live.cfg", env={"PMV_INPUT": path}, timeout=6000)
+        if not r.ok:
+            raise core.MachineryError("MC_Collab (liveness): " + "; ".join(r.errors[:3]) + r.stdout[-2500:])
+        stats.add_tlc(r, f"M MC_Collab live[{bname} clients={ncl} log<={max_log} unconf<={max_unconf}{' rich' if rich else ''}]")
     # ---- G
     jobs = []
     agg = {}
